@@ -5,7 +5,7 @@ use serde_json::{json, Value};
 pub fn dispatch(op: &str, _req: &Value) -> Option<Value> {
     match op {
         "hooks_available" => Some(json!({"hooks": false})),
-        "hook_range_of_ranges" | "hook_ident" | "hook_is_keyword" | "hook_dedup" | "hook_wildcards" => Some(json!({"no_hooks": true})),
+        "hook_range_of_ranges" | "hook_ident" | "hook_is_keyword" | "hook_dedup" | "hook_wildcards" | "hook_split_trace" => Some(json!({"no_hooks": true})),
         _ => None,
     }
 }
@@ -63,6 +63,24 @@ pub fn dispatch(op: &str, req: &Value) -> Option<Value> {
                 .unwrap_or_default();
             let (out, ex) = h::translate_wildcards(cols, decls, insts);
             Some(json!({"output": out, "excluded": ex}))
+        }
+        // compile with the split trace of pq::anchor::extract_atomic switched on
+        "hook_split_trace" => {
+            let o = match crate::ops::options(req) {
+                Ok(o) => o,
+                Err(v) => return Some(v),
+            };
+            h::split_trace_start();
+            let r = prqlc::compile(crate::ops::s(req, "prql"), &o);
+            let events = h::split_trace_take();
+            Some(match r {
+                Ok(sql) => json!({"sql": sql, "events": events}),
+                Err(e) => {
+                    let mut v = crate::ops::errs(&e);
+                    v["events"] = Value::Array(events);
+                    v
+                }
+            })
         }
         _ => None,
     }
